@@ -108,7 +108,10 @@ CLAIMS = {
   "outcome class independent of the coefficients, decomposes over unit vectors), and for each of the 14 programs, by kernel evaluation on "
   "what the code says now: the checker accepts, every coefficient position 0..N-1 is consumed by exactly one accumulate statement "
   "(N from the translated layout constants), static layouts have no conditional statement, the dynamic layout's conditions are exactly its "
-  "ten uses_*_builtin switches. The translator is validated, not assumed: its Lean printer is checked by printing the elaborated terms "
+  "ten uses_*_builtin switches, and (checkChain + chain_sound + no_term_dropped_*) the accumulator DATA FLOW is a single chain: the returned value "
+  "equals the sum over exactly the executed accumulate statements of coefficient x term, every index 0..N-1 contributing exactly once in the "
+  "static layouts and, in the dynamic layout, exactly once iff its builtin switch (loaded from the named dynamic parameter and never overwritten) "
+  "is non-zero — so no constraint's term can be computed and then dropped on the way to the result. The translator is validated, not assumed: its Lean printer is checked by printing the elaborated terms "
   "back (DumpAst), and the driver's evaluation of the translated programs must equal the real eval_*_polynomial_inner on random inputs for "
   "all layouts. 'Not identically zero' is established with unit coefficient vectors at random points on the real code (a polynomial "
   "identity test, as the property's quantifier says), not by a theorem.",
@@ -141,7 +144,8 @@ CLAIMS = {
   "in-range queries; the FRI input values are the DEEP combination of exactly the rows hashed by table_decommit and the absorbed oods values "
   "with coefficients alpha^i drawn after them (C08). Tied to the code by full-pipeline correspondence (real verify vs the Lean pipeline model: "
   "translated AIR evaluators, Lean hashes) on honest proofs and on FORGED proofs for false statements (zero-trace universal forger with/without "
-  "oods splice, corrupted FRI paths, parameter decoupling), which must be rejected.",
+  "oods splice, corrupted FRI paths, parameter decoupling, and a vacuous-FRI forger — zero trace, DEEP quotient folded honestly down to a last layer "
+  "whose degree bound equals its domain size — under 12 re-declarations of the config that try to pass validation), which must be rejected.",
   "NOT proved and not provable with this toolchain (DESIGN section 10): STARK/FRI soundness proper — that a prover without a satisfying trace "
   "fails some check except with negligible probability (FRI proximity gaps, DEEP-ALI, Fiat-Shamir in the random-oracle model). The theorems stop at "
   "'acceptance factors through every IOP check with undecoupled parameters'. Adaptive provers are sampled by the forgers and the C02 sweep only.",
